@@ -401,6 +401,33 @@ let handle (fields : string list) : string * string =
     let m = Printf.sprintf "callback=302 connect=200 tokA_on_A=0 tokA_on_B=%d cookieA_on_B=%s"
         (if shared then 0 else denied) (if shared then "file" else "nofile") in
     (m, if m = impl then "ok" else "fail:keys-not-substituted-or-shared-across-instances")
+  | "oidc" :: _store :: ops :: impl :: [] ->
+    let parsed = List.map (fun o -> match split_on ':' o with
+        | ["c"; s; t] -> OConnect (n_of_int (int_of_string s), z_of_int (int_of_string t))
+        | ["b"; s; st; kind; user; t] ->
+          let okk = (kind = "ok") in
+          let e = { cb_exchange_ok = (kind <> "refuse"); cb_has_idtoken = (kind <> "noidtoken");
+                    cb_verify_ok = (okk || kind = "noname" || kind = "refuse" || kind = "noidtoken");
+                    cb_username = (if kind = "noname" then [] else bytes_of_hex user);
+                    cb_access_token = [] } in
+          OCallback (n_of_int (int_of_string s), n_of_int (int_of_string st), e, z_of_int (int_of_string t))
+        | _ -> failwith ("bad oidc op " ^ o)) (split_on ',' ops) in
+    let outs = Model.orun Model.ostate0 parsed in
+    let m = String.concat "," (List.map (function
+        | OutToIdP _ -> "idp" | OutFile u -> "file:" ^ hex_of_bytes u | OutCbRedirect -> "cb302"
+        | OutCb400 -> "cb400" | OutCb500 -> "cb500") outs) in
+    (m, if m = impl then "ok"
+        else begin
+          let a = split_on ',' m and b = split_on ',' impl in
+          if List.length a = List.length b &&
+             List.exists2 (fun x y -> String.length y >= 4 && String.sub y 0 4 = "file" && x <> y) a b
+          then "fail:session-authenticated-without-a-verified-login"
+          else "fail:oidc-flow-differs"
+        end)
+  | "cookiemut" :: _store :: same :: _v :: impl :: [] ->
+    let m = if same = "1" then "file" else "nofile" in
+    (m, if m = impl then "ok" else if impl = "file" then "fail:altered-session-cookie-accepted" else "fail:valid-cookie-refused")
+  | "identity" :: _i :: impl :: [] -> ("same", if impl = "same" then "ok" else "fail:identity-not-restored")
   | k :: _ -> failwith ("unknown kind " ^ k)
   | [] -> failwith "empty line"
 
